@@ -14,7 +14,8 @@
 //   * bswapN: byte-reversal loop over the low N bits + involution; signed forms and
 //     sign_extend/ext24/ext48: arithmetic sign extension ((u ^ m) - m).
 //
-// Parts (--arg only=<part>): helpers, exh24, w16, lanes, cross, sampled (default: all of these), and
+// Parts (--arg only=<part>): helpers, exh24, w16, lanes, cross, sampled, chain (c03_chain.hh: result type / value category,
+// chained lvalue use, results consumed in a wider context) (default: all of these), and
 // exh32 (thorough tier, separate -O2 UBSan-only stage: every 32-bit pattern).
 #include <float.h>
 #include <math.h>
@@ -1095,6 +1096,10 @@ static void part_sampled(vf::Rng& r) {
   }
 }
 
+#ifndef C03_EXH32_ONLY
+#include "c03_chain.hh"
+#endif
+
 #ifdef C03_EXH32_ONLY
 // every 32-bit pattern: bswap32/bswap32f, sign_extend from 32-bit sources, and ctor/load, raw access and
 // ++/-- of the nine 32-bit wrappers.  Meant for the -O2 UBSan-only build.
@@ -1167,9 +1172,11 @@ int main(int argc, char** argv) {
   if (want("lanes")) part_lanes();
   if (want("cross")) part_cross();
   if (want("sampled")) part_sampled(r);
+  if (want("chain")) part_chain(r);
 #endif
   c.sample("bswap16 all 2^16, bswap24/bswap24s/ext24 all 2^24, every 16-bit value through re/le/be_(u)int16_t incl. ++/--");
   c.sample("be_uint16_t w=0x0102: bytes 01 02; ++w must return 0x0103 and leave bytes 01 03 (native uint16_t ++x)");
+  c.sample("be_uint16_t w=7: (w += 3) *= 5 must leave 50 (bytes 00 32) as for uint16_t; uint32_t y = ++w with w=0xFFFF must give 0, not 65536");
   c.sample("lane patterns b<<8k, all pairs of lanes, 2^k, 2^k+-1 through bswap32/48/64, ext48 and every 32/64-bit wrapper");
   c.evaluations += EV;
   return c.finish();
